@@ -70,6 +70,8 @@ def strip_ws_outside_strings(b):
 def generate(ctx):
     r = ctx.rng
     ds = common.docs(ctx, ctx.scale(500, 20000), finite=True)
+    for op in ('to_string', 'to_pretty_string'):
+        ctx.add('%s -' % op, kind='empty-input')       # empty input renders as null (tie only)
     # every control character, quote, backslash, slash, DEL, U+0080, U+2028/9, U+FFFF, astral: in values and in keys
     for cp in gen.CODEPOINTS_SPECIAL:
         s = ('a' + chr(cp) + 'b').encode('utf-8')
